@@ -146,3 +146,6 @@ fn c17_views_fixed() {
 
 // `SparseMatrix::new` stays trusted: a Kani harness over shapes up to 3x3 did not finish in 40 min
 // (repeat_with().take().collect() is the measured CBMC blow-up).
+
+// a concrete playback test printed by Kani for a failing harness of this module is replayed from here
+include!(concat!(env!("VERIF_KANI_GEN"), "/playback_c17.rs"));
